@@ -223,6 +223,16 @@ func (p c19) Run(c *core.Ctx) {
 		}
 		return nil, nil
 	})
+	// another runner of the process replaces built-ins with functions of its own: that is its business alone
+	if other, err, pan := mon.Create(nil, "", scripts); err == nil && pan == "" {
+		wrong := func([]*variable.Value) (*variable.Value, error) { return variable.NewNumber(-12345), nil }
+		for _, f := range []string{"floor", "ceil", "inc", "dec", "integer", "decimal", "round", "round_places", "number"} {
+			other.DR.AddFunction(f, wrong)
+		}
+		other.DR.AddFunction("string", func([]*variable.Value) (*variable.Value, error) { return variable.NewString("overridden"), nil })
+		other.DR.AddFunction("bool", func([]*variable.Value) (*variable.Value, error) { return variable.NewBoolean(false), nil })
+		c.Feature("another-runner-overrides-the-built-ins")
+	}
 	o := rr.Next(0)
 	if o.Kind != mon.KLine {
 		c.Violate("evaluating the built-ins on in-domain numbers did not complete: "+o.String(), map[string]any{"readers": scripts, "values": fmt.Sprint(xs)})
